@@ -151,8 +151,10 @@ func checkRoundTrip(u *url.Url, tokens string) {
 		orc.Eval("C03.std-exception")
 		return
 	}
+	// F6 is about the HOST of a url that went through IDNA: the re-parse is rejected, or gives another host — a re-parse
+	// that keeps the host and differs elsewhere is not that finding
 	class := "other"
-	if hasAceLabel(u.Hostname()) {
+	if hasAceLabel(u.Hostname()) && (err != nil || v.Hostname() != u.Hostname()) {
 		class = "idn-host"
 	}
 	what := "re-parse failed"
